@@ -18,6 +18,7 @@ import threading
 
 _state = threading.local()
 _current_test = {"id": ""}
+_vault_events: list = []
 MUTATORS = [
     "set_value", "set_cell", "insert_cell", "append_cell", "delete_cell", "set_row", "insert_row", "append_row", "delete_row",
     "set_row_values", "set_row_cells", "set_values", "set_cells", "insert_column", "append_column", "set_column", "delete_column",
@@ -375,6 +376,14 @@ def pytest_configure(config):
     for name in MUTATORS:
         if hasattr(Table, name):
             _wrap(Table, name, out_path)
+    if os.environ.get("ODFDO_VERIF_VAULT") == "1":
+        import sys
+
+        sys.path.insert(0, os.path.dirname(os.path.dirname(os.path.abspath(__file__))))
+        from harness import vault_trace
+
+        _vault_events.clear()
+        vault_trace.install(_vault_events, limit=60000)
     if os.environ.get("ODFDO_VERIF_PKG") == "1":
         _wrap_save(out_path)
     if os.environ.get("ODFDO_VERIF_TEXT") == "1":
@@ -383,6 +392,14 @@ def pytest_configure(config):
         for name, klass in TEXT_METHODS.items():
             if hasattr(Paragraph, name):
                 _wrap_text(Paragraph, name, klass, out_path)
+
+
+def pytest_sessionfinish(session, exitstatus):
+    out_path = os.environ.get("ODFDO_VERIF_TRACE")
+    if os.environ.get("ODFDO_VERIF") == "1" and out_path and _vault_events:
+        with open(out_path, "a") as f:
+            for ev in _vault_events:
+                f.write(json.dumps({"kind": "vault", **ev}) + "\n")
 
 
 def pytest_runtest_setup(item):
